@@ -159,9 +159,9 @@ template <class C> typename C::value_type mk(int k, int uid) {
 template <class C> auto probe(int k) { if constexpr (is_map<C>::value) return k; else return Elem(k, 0); }
 
 // ------------------------------------------------------------------------------------------------ plan / log
-enum Kind : uint8_t { K_INS_C, K_INS_M, K_INS_H, K_EMPL, K_EMPL_H, K_INS_RANGE, K_FIND, K_CONTAINS, K_COUNT, K_TRAV, K_TRAV_FROM, K_N };
-static const char* kind_name[] = { "insert(const&)", "insert(&&)", "insert(hint,v)", "emplace", "emplace_hint", "insert(first,last)", "find", "contains", "count", "traverse", "traverse-from-find" };
-static inline bool is_insert(int k) { return k <= K_INS_RANGE; }
+enum Kind : uint8_t { K_INS_C, K_INS_M, K_INS_H, K_EMPL, K_EMPL_H, K_INS_RANGE, K_INS_NH, K_FIND, K_CONTAINS, K_COUNT, K_TRAV, K_TRAV_FROM, K_N };
+static const char* kind_name[] = { "insert(const&)", "insert(&&)", "insert(hint,v)", "emplace", "emplace_hint", "insert(first,last)", "insert(node_type&&)", "find", "contains", "count", "traverse", "traverse-from-find" };
+static inline bool is_insert(int k) { return k <= K_INS_NH; }
 static inline bool is_lookup(int k) { return k == K_FIND || k == K_CONTAINS || k == K_COUNT; }
 static inline bool is_trav(int k) { return k == K_TRAV || k == K_TRAV_FROM; }
 
@@ -185,6 +185,8 @@ struct Scen {
     std::vector<std::pair<int, int>> prefill_elems;   // (key, uid) inserted sequentially before the first round
     int next_uid = 1; size_t max_elems = 0;
     void* cont = nullptr;
+    // node handles extracted at the quiescent point and re-inserted *concurrently* in the next round (std::vector<C::node_type>*)
+    void* nh_pool = nullptr; std::vector<std::pair<int, int>> nh_elems; void (*free_pool)(Scen&) = nullptr;
     void (*run)(Scen&, int) = nullptr;
     std::unique_ptr<Barrier> start;
     Clock clk;
@@ -225,10 +227,11 @@ template <class C> static void run_thread(Scen& s, int t) {
         if (o.follow >= 0) { int k2 = s.last_done[o.follow].load(std::memory_order_relaxed); if (k2 >= 0) key = k2; }
         Rec r; r.kind = o.kind; r.thread = (int8_t)t; r.key = key; r.cls = key / g; r.uid = o.uid;
         switch (o.kind) {
-        case K_INS_C: case K_INS_M: case K_INS_H: case K_EMPL: case K_EMPL_H: {
+        case K_INS_C: case K_INS_M: case K_INS_H: case K_EMPL: case K_EMPL_H: case K_INS_NH: {
             tl_force_height = o.height;
             typename C::iterator it; bool have_bool = true, b = false;
-            if (o.kind == K_INS_C) { typename C::value_type v = mk<C>(key, o.uid); r.call = clk.call(); auto p = c.insert(v); r.ret = clk.ret(); it = p.first; b = p.second; }
+            if (o.kind == K_INS_NH) { auto& nh = (*(std::vector<typename C::node_type>*)s.nh_pool)[o.nx]; r.call = clk.call(); auto p = c.insert(std::move(nh)); r.ret = clk.ret(); it = p.first; b = p.second; }
+            else if (o.kind == K_INS_C) { typename C::value_type v = mk<C>(key, o.uid); r.call = clk.call(); auto p = c.insert(v); r.ret = clk.ret(); it = p.first; b = p.second; }
             else if (o.kind == K_INS_M) { typename C::value_type v = mk<C>(key, o.uid); r.call = clk.call(); auto p = c.insert(std::move(v)); r.ret = clk.ret(); it = p.first; b = p.second; }
             else if (o.kind == K_INS_H) { typename C::value_type v = mk<C>(key, o.uid); typename C::const_iterator hint = o.cst ? cc.end() : cc.begin(); r.call = clk.call(); it = c.insert(hint, v); r.ret = clk.ret(); have_bool = false; }
             else if (o.kind == K_EMPL) {
@@ -392,10 +395,10 @@ static bool g_drop_sl_handles = false;
 template <class C> static void mutate_quiescent(Scen& s, Rng& r, std::map<int, int>& present /*uid -> key*/) {
     C& c = *(C*)s.cont;
     const std::string F = std::string("c12.") + fam(s.kind);
-    int n = 1 + (int)r.below(4);
+    int n = 1 + (int)r.below(4); bool nh_round = (ck_multi(s.kind) || ck_unordered(s.kind)) && r.chance(1, 2); if (nh_round) n += 3 + (int)r.below(6);
     for (int i = 0; i < n && !present.empty(); i++) {
         auto pit = present.begin(); std::advance(pit, r.below(present.size()));
-        int key = pit->second, cls = key / s.cfg.g; unsigned how = (unsigned)r.below(3);
+        int key = pit->second, cls = key / s.cfg.g; unsigned how = (unsigned)r.below(3); if (nh_round && i >= 2) how = 2;
         if (how == 0) {
             size_t expect = 0; for (auto& e : present) if (e.second / s.cfg.g == cls) expect++;
             size_t got = c.unsafe_erase(probe<C>(key));
@@ -411,11 +414,19 @@ template <class C> static void mutate_quiescent(Scen& s, Rng& r, std::map<int, i
         } else {
             auto it = c.find(probe<C>(key));
             if (it == c.end()) { fail(F + ".quiescent.find-failed", "find(" + std::to_string(key) + ") failed at quiescence before unsafe_extract"); continue; }
-            int uid = v_tag(*it).uid; size_t sz0 = c.size();
+            int uid = v_tag(*it).uid, ekey = v_key(*it); size_t sz0 = c.size();     // the element found may be another member of the class than the one drawn
             auto nh = c.unsafe_extract(it);
             if (nh.empty() || c.size() != sz0 - 1) fail(F + ".quiescent.extract-failed", "unsafe_extract gave an empty handle or size() did not drop by one");
             size_t same_cls = 0; for (auto& e : present) if (e.second / s.cfg.g == cls && e.first != uid) same_cls++;
             if (same_cls == 0 && c.contains(probe<C>(key))) fail(F + ".quiescent.extract-failed", "key still found after unsafe_extract");
+            // multi containers (insert always succeeds) and unordered containers (a handle whose insert failed may be dropped): keep the handle,
+            // it is inserted by one of the threads of the next round while the others insert, count and traverse
+            if (!nh.empty() && (ck_multi(s.kind) || ck_unordered(s.kind)) && s.nh_elems.size() < 12 && r.chance(2, 3)) {
+                auto* pool = (std::vector<typename C::node_type>*)s.nh_pool;
+                if (!pool) { pool = new std::vector<typename C::node_type>(); pool->reserve(16); s.nh_pool = pool; s.free_pool = [](Scen& sc) { delete (std::vector<typename C::node_type>*)sc.nh_pool; sc.nh_pool = nullptr; }; }
+                pool->push_back(std::move(nh)); s.nh_elems.push_back({ ekey, uid }); present.erase(uid);
+                result().stat("node_handles_kept_for_concurrent_reinsertion");
+            }
             if (!nh.empty()) {
                 // dropping a non-empty handle of a skip list frees the node with the wrong size (side finding reported; --drop-sl-handles reproduces it)
                 if (r.chance(1, 4) && (ck_unordered(s.kind) || g_drop_sl_handles)) { present.erase(uid); /* handle dropped: element destroyed with it */ }
@@ -573,6 +584,11 @@ static void gen_plan(Scen& s, Rng& r, int cpus, const std::string& mode, int rou
             o.pre = p < 55 ? 0 : p < 100 - py ? (int)r.below(500) : 100000;
             s.plan[t].push_back(o);
         }
+    }
+    // node handles kept at the quiescent point: each is inserted by some thread somewhere in this round
+    for (size_t k = 0; k < s.nh_elems.size() && round > 0; k++) {
+        OpSpec o; o.kind = K_INS_NH; o.key = s.nh_elems[k].first; o.uid = s.nh_elems[k].second; o.nx = (uint8_t)k; o.pre = r.chance(1, 2) ? 0 : (int)r.below(400);
+        auto& pl = s.plan[r.below((uint64_t)s.nthreads)]; pl.insert(pl.begin() + (long)r.below(pl.size() + 1), o);
     }
     (void)multi; (void)round;
 }
@@ -840,7 +856,7 @@ int main(int argc, char** argv) {
         bool sample_ok = false;
         for (int round = 0; round < s.rounds && !g_fails.load(); round++) {
             gen_plan(s, r, cpus, mode, round);
-            size_t ins_elems = 0; for (auto& p : s.plan) for (auto& o : p) { total_ops++; if (is_insert(o.kind)) ins_elems += 1 + o.nx; }
+            size_t ins_elems = 0; for (auto& p : s.plan) for (auto& o : p) { total_ops++; if (is_insert(o.kind)) ins_elems += 1 + (o.kind == K_INS_RANGE ? o.nx : 0); }
             s.max_elems = present.size() + ins_elems;
             for (int t = 0; t < 4; t++) { s.recs[t].clear(); s.recs[t].reserve(128); s.travs[t].clear(); s.last_done[t].store(-1, std::memory_order_relaxed); }
             uint64_t h162 = hook_count(162), h161 = hook_count(161), h166 = hook_count(166);
@@ -873,6 +889,7 @@ int main(int argc, char** argv) {
             if (round + 1 < s.rounds) { vt.mutate(s, r, present); R.stat("quiescent_mutation_rounds"); }
             progress();
         }
+        if (s.free_pool) { s.free_pool(s); s.free_pool = nullptr; } s.nh_elems.clear();
         bool failed = g_fails.load() != 0;
         std::string hist; if (failed || (sample_ok && R.want_sample())) hist = history_json(s, failed ? 160 : 40);
         vt.destroy(s);
